@@ -133,6 +133,10 @@ fn encode_container(t: &Tree) -> Vec<u8> {
             out.extend_from_slice(&payloads);
         }
         Tree::Obj(members) => {
+            assert!(
+                members.windows(2).all(|w| w[0].0.as_bytes() < w[1].0.as_bytes()),
+                "harness bug: reference object with unsorted or duplicate keys"
+            );
             put_u32(&mut out, OBJECT | members.len() as u32);
             let mut keys = Vec::new();
             let mut vals = Vec::new();
